@@ -84,6 +84,7 @@ pub fn gen_shape(rng: &mut Rng, size_class: u32, fails: bool, slow: bool) -> Rep
         fail,
         delay_ms,
         partial_fields,
+        distinct_keys: false,
     }
 }
 
@@ -169,6 +170,7 @@ pub fn gen_workload(rng: &mut Rng, plan: &mut Plan, ids: &mut Ids, w: &Workload)
             rng.urange(1, w.max_ops)
         };
         let size_class = if long_history && ci == 0 { 0 } else { size_class };
+        let first_new_id = ids.0 + 1;
         let zero_think = zero_think || (long_history && ci == 0);
         let mut script = Vec::new();
         if rng.chance(1, 2) {
@@ -206,7 +208,41 @@ pub fn gen_workload(rng: &mut Rng, plan: &mut Plan, ids: &mut Ids, w: &Workload)
         if w.drops && rng.chance(1, 3) {
             script.push(Op::DropHandle);
         }
+        if long_history && ci == 0 {
+            // a growing vocabulary of field names over the life of the connection
+            for id in first_new_id..=ids.0 {
+                if let Some(s) = plan.replies.get_mut(&id) {
+                    s.distinct_keys = true;
+                    s.fields = s.fields.max(3);
+                }
+            }
+        }
         plan.callers.push(script);
+    }
+    // rarely: far more requests outstanding at once than any queue bound someone might introduce
+    if w.bursts && w.max_ops >= 8 && rng.chance(1, 150) {
+        let k = *rng.pick(&[129usize, 130, 200, 300]);
+        let ops: Vec<Op> = (0..k)
+            .map(|_| {
+                let id = ids.next();
+                plan.replies.insert(id, ReplyShape::default());
+                Op::Request { id }
+            })
+            .collect();
+        if let Some(c) = plan.callers.first_mut() {
+            let at = rng.usize_below(c.len() + 1);
+            c.insert(at, Op::Burst { ops });
+        }
+    }
+    // rarely: a reply that takes minutes of (virtual) time, followed by more requests
+    if rng.chance(1, 100) {
+        let keys: Vec<u64> = plan.replies.keys().copied().collect();
+        if !keys.is_empty() {
+            let id = *rng.pick(&keys);
+            if let Some(s) = plan.replies.get_mut(&id) {
+                s.delay_ms = *rng.pick(&[59_999u32, 120_000, 299_999, 300_001, 900_000]);
+            }
+        }
     }
     // rarely one reply carries a payload far beyond the receive buffer and its first doublings
     if w.big_replies && rng.chance(1, 150) {
@@ -402,10 +438,28 @@ pub fn retarget_changes(rng: &mut Rng, plan: &mut Plan) {
     plan.changes.sort_by_key(|c| c.at_ms);
 }
 
+/// Plans with hundreds of operations or notifications get a coarse network: every event of a
+/// run is logged, and a long history fed bytewise with millisecond gaps would spend its whole
+/// event budget on reads.
+pub fn tame_net_for_big_plans(plan: &mut Plan) {
+    let ops: usize = plan.callers.iter().flatten().map(|o| o.ids().len().max(1)).sum();
+    if ops > 100 || plan.changes.len() > 200 {
+        if !matches!(plan.net.s2c_mode, SegMode::Whole | SegMode::Lines | SegMode::BeforeLastLine) {
+            plan.net.s2c_mode = SegMode::Lines;
+        }
+        plan.net.s2c_delay_ms = vec![0];
+        plan.net.read_pending = vec![0];
+        plan.net.write_chunk = vec![usize::MAX];
+        plan.net.write_pending = vec![0];
+    }
+}
+
 pub fn base_plan(rng: &mut Rng) -> Plan {
     let mut p = Plan::empty(rng.next_u64());
     p.version = (*rng.pick(&["0.23.5", "0.21.11", "0.24", "0.19.0~git x"])).to_string();
     p.connect_via_opt = rng.chance(1, 8);
+    // half of the runs execute with TRACE logging switched on
+    p.tracing = rng.chance(1, 2);
     p
 }
 
@@ -494,6 +548,7 @@ pub fn gen_picture(rng: &mut Rng, uri: String, limit: usize) -> Picture {
             Vec::new()
         },
         header_before_error: rng.chance(1, 3),
+        mime_only_first_chunk: rng.chance(1, 4),
         later_error: if rng.chance(1, 8) {
             Some((
                 *rng.pick(&[1u64, 2, limit as u64, limit as u64 + 1, 3 * limit as u64, 5000]),
@@ -514,6 +569,10 @@ pub const ERR_KINDS: &[&str] = &[
     "TimedOut",
     "ConnectionAborted",
     "Other",
+    // what a TLS stream reports when the peer vanishes without close_notify: an *error* of the
+    // same kind the library itself uses for a cut stream
+    "UnexpectedEof",
+    "InvalidData",
 ];
 
 /// Garbage always contains a byte sequence no production accepts, whatever it is spliced into.
@@ -670,10 +729,13 @@ fn simplify_op(op: &Op) -> Vec<Op> {
     let mut v = Vec::new();
     match op {
         Op::Burst { ops } => {
-            for o in ops {
+            for o in ops.iter().take(4) {
                 v.push(o.clone());
             }
-            if ops.len() > 2 {
+            if ops.len() > 8 {
+                v.push(Op::Burst { ops: ops[..ops.len() / 2].to_vec() });
+                v.push(Op::Burst { ops: ops[ops.len() / 2..].to_vec() });
+            } else if ops.len() > 2 {
                 for i in 0..ops.len() {
                     let mut o2 = ops.clone();
                     o2.remove(i);
@@ -1003,6 +1065,27 @@ pub fn shrink_plan(plan: &Plan) -> Vec<Plan> {
         let mut p = plan.clone();
         p.connect_via_opt = false;
         push(p);
+    }
+    if plan.tracing {
+        let mut p = plan.clone();
+        p.tracing = false;
+        push(p);
+    }
+    // long runs of change events: halve
+    if plan.changes.len() > 8 {
+        let mut p = plan.clone();
+        p.changes.truncate(plan.changes.len() / 2);
+        push(p);
+        let mut p = plan.clone();
+        p.changes.drain(..plan.changes.len() / 2);
+        push(p);
+    }
+    if let Consumer::StartAt(t) = plan.consumer {
+        if t > 0 {
+            let mut p = plan.clone();
+            p.consumer = Consumer::StartAt(t / 2);
+            push(p);
+        }
     }
     if plan.version != "1" {
         let mut p = plan.clone();
